@@ -76,6 +76,15 @@ async fn http_append_and_cas_are_byte_exact() {
     let _new = store.append(Frame::builder("dup.state", ZERO_CONTEXT).hash(store.cas_insert_sync(b"newer").unwrap()).ttl(xs::store::TTL::Head(1)).build()).unwrap();
     store.wait_for_gc().await;
     assert_eq!(store.cas_read(b.hash.as_ref().unwrap()).await.expect("C10: content of an observable frame after a frame with the same bytes was evicted"), shared);
+    // a REJECTED append (unknown context) whose body equals the content of an existing frame leaves that content alone
+    let keep_body = b"bytes shared with a rejected append".to_vec();
+    let req = [format!("POST /keep HTTP/1.1\r\nhost: x\r\ncontent-length: {}\r\n\r\n", keep_body.len()).into_bytes(), keep_body.clone()].concat();
+    let resp = raw_pieces(&sock, vec![req], 1500).await;
+    let kept: Frame = serde_json::from_slice(&body_of(&resp)).expect("frame json");
+    let req = [format!("POST /keep?context={} HTTP/1.1\r\nhost: x\r\ncontent-length: {}\r\n\r\n", scru128::new(), keep_body.len()).into_bytes(), keep_body.clone()].concat();
+    let resp = raw_pieces(&sock, vec![req], 1500).await;
+    assert!(!resp.starts_with(b"HTTP/1.1 200"), "C07/C13: an append into an unregistered context must be refused");
+    assert_eq!(store.cas_read(kept.hash.as_ref().unwrap()).await.expect("C10: content of an observable frame after a rejected append with the same bytes"), keep_body);
     // the same with chunked transfer encoding (what `xs append` and the client library send): an empty chunked body is still "no body";
     // chunks of any size are stored byte for byte
     let resp = raw_pieces(&sock, vec![b"POST /chunked0 HTTP/1.1\r\nhost: x\r\ntransfer-encoding: chunked\r\n\r\n".to_vec(), b"0\r\n\r\n".to_vec()], 1500).await;
